@@ -4,6 +4,7 @@ from ..core.davsys import Config
 from . import e1common
 
 ASSUME = [
+    "one configuration also audits filtered listings (calendar-query per component type, each asked twice, index threshold 0) against the model",
     "one configuration uploads through the real socket with the body arriving in two pieces 40 ms apart (plain files and calendars): what is acknowledged must be the whole body",
     "one configuration has two workers: a second application object with its own store cache on the same directory (gunicorn workers = 2 in the repository's examples); every write is offered to either worker, and after every request both workers are audited and must show the same",
     "alphabet: 2 names x 4 bodies per calendar, 1 name x 2 cards, one extra collection, POST add-member, restart",
@@ -21,6 +22,9 @@ def configs(tier):
     rb = {"cal": ["X", "R1", "R2", "BAD"], "ab": ["K", "L"], "c2": ["X", "Z"]}
     out = [
         Config(front="wsgi", backend="tree", prefix="/", features=feats | {"burst"}, props=props, oracles={"C01"}),
+        # filtered listings (calendar-query per component type, index in use from the first query on)
+        Config(front="wsgi", backend="bare", prefix="/", threshold=0, features={"shapes", "restart"}, names={"cal": ["a.ics", "b.ics"], "ab": [], "c2": []}, bodies={"cal": ["X", "T", "X2"], "ab": [], "c2": []},
+               props={}, oracles={"C01"}, label="bare/wsgi+filtered-listings"),
         Config(front="aio", backend="tree", prefix="/dav/", features=feats, props=props, oracles={"C01"}),
         Config(front="wsgi", backend="bare", prefix="/dav/", features=feats, props=props, bodies=rb, oracles={"C01"}),
     ]
@@ -47,7 +51,7 @@ def run(tier, workers=None):
     def seeds(cfg):
         if isinstance(cfg, e1common.StoreCfg):
             return [[("put", "a.ics", "X", None), ("put", "b.ics", "Z", None), ("delete", "a.ics", None)]]
-        if "two-workers" in cfg.features or "reserved-names" in cfg.label or "slow-body" in cfg.features:
+        if "two-workers" in cfg.features or "reserved-names" in cfg.label or "slow-body" in cfg.features or "shapes" in cfg.features:
             return []
         hs = [[("mkcalendar", "c2"), ("put", "c2", "a.ics", "X")], [("put", "cal", "a.ics", "X"), ("put", "cal", "b.ics", "Z"), ("delete", "cal", "a.ics")],
               [("put", "cal", "a.ics", "X"), ("restart",), ("put", "cal", "a.ics", "X2")]]
@@ -64,6 +68,8 @@ def run(tier, workers=None):
         return (4, 4000)
 
     faults = {
+        # the fault phase runs on the core configurations (the special-purpose ones share the same write path)
+        "configs": [c for c in configs(tier) if "+" not in getattr(c, "label", "") or c.label.endswith("+cfgmeta")],
         "histories": [[], [("put", "cal", "a.ics", "X")], [("put", "cal", "a.ics", "X"), ("put", "cal", "b.ics", "Z")]],
         "ops": [("put", "cal", "a.ics", "X2"), ("delete", "cal", "a.ics"), ("proppatch", "cal", "displayname", "d1"), ("post", "cal", "T")] + ([("put", "ab", "a.vcf", "K"), ("put", "cal", "b.ics", "Z")] if tier == "thorough" else []),
     }
